@@ -684,3 +684,39 @@ Theorem rms_tie_x {A O} (agg : list A -> O) n g m (c : blk A) : 1 <= n -> rms_re
 Proof. intros Hn HR. rewrite rms_step_x_is_g. apply rms_tie; [exact Hn|apply rms_law_x|exact HR]. Qed.
 Lemma rms_rel_init {A} (s0div : Z -> Z) : @rms_rel A s0div None rms_init.
 Proof. reflexivity. Qed.
+
+(* ================= auto_th ================= *)
+Section AutoTh.
+Context {A T O : Type}.
+(* the three phases of the coroutine: nothing received yet / spooling the baseline / threshold fixed *)
+Definition ath_rep (s : ath_st A T) : option (blk A) + T :=
+  match s with AthAcc d => inl d | AthRun th => inr th end.
+
+Theorem auto_th_tie (thr : list A -> T) (ge : T -> A -> O) Bn (s : ath_st A T) (c : blk A) :
+  auto_th_gen_step thr ge Bn (ath_rep s) c = lift ath_rep (autoth_step thr ge Bn s c).
+Proof.
+  unfold auto_th_gen_step, autoth_step, auto_th_gen_spool, auto_th_gen_body, map_blk.
+  destruct s as [[d0|]|th]; cbn [ath_rep].
+  - destruct (concat2 d0 c) as [data|]; [|reflexivity].
+    destruct (zlen (dat data) <? Bn); reflexivity.
+  - destruct (zlen (dat c) <? Bn); reflexivity.
+  - reflexivity.
+Qed.
+
+Lemma auto_th_tie_run thr (ge : T -> A -> O) Bn cs (s : ath_st A T) :
+  run (auto_th_gen_step thr ge Bn) (ath_rep s) cs = lift ath_rep (run (autoth_step thr ge Bn) s cs).
+Proof. apply run_lift. apply auto_th_tie. Qed.
+
+Theorem source_auto_th_values_any (thr : list A -> T) (ge : T -> A -> O) Bn h s (ds : list (list A)) : 0 <= Bn ->
+  emits_values (run (auto_th_gen_step thr ge Bn) (inl None) (mkstream h s ds)) (thresholded thr ge Bn (concat ds)).
+Proof.
+  intro HB. change (@inl (option (blk A)) T None) with (ath_rep (AthAcc None)).
+  rewrite auto_th_tie_run. apply emits_values_lift. now apply autoth_values_any.
+Qed.
+Theorem source_auto_th_contiguous_any (thr : list A -> T) (ge : T -> A -> O) Bn h s (ds : list (list A)) : 0 <= Bn ->
+  emits_contiguous (run (auto_th_gen_step thr ge Bn) (inl None) (mkstream h s ds)) h s.
+Proof.
+  intro HB. change (@inl (option (blk A)) T None) with (ath_rep (AthAcc None)).
+  rewrite auto_th_tie_run. apply emits_contiguous_lift. now apply autoth_contiguous_any.
+Qed.
+End AutoTh.
